@@ -34,6 +34,8 @@ func c11Maps(prefix string, thorough bool) []http.Header {
 		{k1: {c11Values[3], c11Values[4], c11Values[5]}, k2: {c11Values[6]}},
 		{kb: {connect.EncodeBinaryHeader([]byte{0x00, 0xff, 0x10}), connect.EncodeBinaryHeader([]byte{})}, k1: {c11Values[7]}},
 	}
+	// repeated equal values under one key (text and binary): every occurrence counts
+	out = append(out, http.Header{k2: {"r", "s", "r", "r"}, kb: {connect.EncodeBinaryHeader([]byte{1, 2}), connect.EncodeBinaryHeader([]byte{1, 2})}})
 	// a key shared by all carriers: merged views must keep every carrier's values
 	out = append(out, http.Header{"X-Shared": {prefix + "-shared-1", prefix + "-shared-2"}, k1: {c11Values[0]}})
 	if thorough {
